@@ -342,6 +342,7 @@ def _mk_llm(mode, subst, every):
         every: list = []
         calls: list = []
         i: int = 0
+        turn: int = 0
 
         @property
         def _llm_type(self) -> str:
@@ -360,7 +361,7 @@ def _mk_llm(mode, subst, every):
             else:
                 text = good_answer(kind, prompt)
                 hostile = False
-            self.calls.append({"i": k, "kind": kind, "hostile": hostile, "text": text if hostile else None})
+            self.calls.append({"i": k, "kind": kind, "hostile": hostile, "turn": self.turn})
             return text
 
         def _call(self, prompt: str, stop: Optional[List[str]] = None, run_manager=None, **kwargs: Any) -> str:
@@ -424,6 +425,7 @@ def run_conversation(case, cfg_cache):
     state = {} if v2 else None
     for t, msg in enumerate(case["turns"]):
         history.append({"role": "user", "content": msg})
+        llm.turn = t
         try:
             if v2:
                 out = app.generate(messages=[{"role": "user", "content": msg}], state=state)
@@ -454,7 +456,6 @@ def run_conversation(case, cfg_cache):
 def e2e_worker(inp, outp):
     sys.path.insert(1, C.REPO)
     import logging
-    import threading
 
     logging.disable(logging.CRITICAL)
     cases = json.load(open(inp))
@@ -468,18 +469,6 @@ def e2e_worker(inp, outp):
             json.dump({"current": cur["i"], "done": results}, f)
         os.replace(tmp, outp + ".progress")
 
-    def watchdog():
-        # a case that does not come back within CASE_TIMEOUT is a hang: the process is killed
-        # (an in-process exception would be swallowed by the interpreter's `except Exception`)
-        while True:
-            time.sleep(1)
-            if cur["i"] >= 0 and time.time() - cur["t"] > CASE_TIMEOUT:
-                os._exit(3)
-
-    # the imports happen before the clock of the first case starts
-    from nemoguardrails import LLMRails, RailsConfig  # noqa: F401
-
-    threading.Thread(target=watchdog, daemon=True).start()
     for i, case in enumerate(cases):
         cur["i"], cur["t"] = i, time.time()
         save_progress()
@@ -602,7 +591,65 @@ def mutations(rng, n):
 # ---------------------------------------------------------------------------------------
 # end-to-end driver (parent side): batches in child processes under `timeout`
 
-CASE_TIMEOUT = 90
+CASE_CPU_LIMIT = 60      # CPU seconds one conversation may burn (a busy hang)
+CASE_WALL_LIMIT = 900    # wall seconds one conversation may take (a waiting hang; generous: loaded machines)
+
+
+def _cpu_seconds(pid):
+    """CPU time (user+system) of a process and its threads, from /proc."""
+    try:
+        with open(f"/proc/{pid}/stat") as f:
+            parts = f.read().rsplit(")", 1)[1].split()
+        return (int(parts[11]) + int(parts[12])) / os.sysconf("SC_CLK_TCK")
+    except Exception:
+        return None
+
+
+def _run_child(inp, outp):
+    """Run one worker; the parent watches the progress file and the child's CPU time (an
+    in-process alarm cannot interrupt a regex or the interpreter's `except Exception`)."""
+    import subprocess
+
+    env = dict(os.environ)
+    env.update(C.impl_env())
+    total_wall = CASE_WALL_LIMIT + 600
+    p = subprocess.Popen(["timeout", "-k", "5", str(total_wall * 4), C.PY, "-m", "harness.c17", "--e2e-worker", inp, outp],
+                         cwd=C.VERIF, env=env, stdout=subprocess.DEVNULL, stderr=subprocess.DEVNULL)
+    cur, cur_t0, cur_cpu0 = None, time.time(), 0.0
+    why = None
+    while True:
+        try:
+            p.wait(timeout=1.0)
+            break
+        except subprocess.TimeoutExpired:
+            pass
+        try:
+            k = json.load(open(outp + ".progress"))["current"]
+        except Exception:
+            k = None
+        # the python child of `timeout`
+        try:
+            kids = open(f"/proc/{p.pid}/task/{p.pid}/children").read().split()
+        except Exception:
+            kids = []
+        cpu = _cpu_seconds(kids[0]) if kids else None
+        if k != cur:
+            cur, cur_t0, cur_cpu0 = k, time.time(), cpu or 0.0
+            continue
+        if cur is None or cur < 0:
+            if time.time() - cur_t0 > total_wall:
+                why = "startup"
+        elif cpu is not None and cpu - cur_cpu0 > CASE_CPU_LIMIT:
+            why = f"cpu>{CASE_CPU_LIMIT}s"
+        elif time.time() - cur_t0 > CASE_WALL_LIMIT:
+            why = f"wall>{CASE_WALL_LIMIT}s"
+        if why:
+            for kpid in kids:
+                C.sh(["kill", "-9", kpid], timeout=10)
+            p.kill()
+            p.wait()
+            break
+    return p.returncode, why
 
 
 def _run_batch(idx, cases):
@@ -620,9 +667,7 @@ def _run_batch(idx, cases):
                 os.remove(p)
         with open(inp, "w") as f:
             json.dump([cases[i] for i in todo], f)
-        budget = 120 + CASE_TIMEOUT * 2 + 3 * len(todo)
-        rc, log = C.sh(["timeout", "-k", "5", str(budget), C.PY, "-m", "harness.c17", "--e2e-worker", inp, outp],
-                       cwd=C.VERIF, env=C.impl_env(), timeout=budget + 30)
+        rc, why = _run_child(inp, outp)
         if os.path.exists(outp):
             rs = json.load(open(outp))
             for i, r in zip(todo, rs):
@@ -635,13 +680,13 @@ def _run_batch(idx, cases):
             pass
         if cur is None or cur.get("current", -1) < 0:
             for i in todo:
-                results[i] = {"replies": [], "calls": [], "fail": {"kind": "worker-died", "rc": rc, "log": log[-500:]}}
+                results[i] = {"replies": [], "calls": [], "fail": {"kind": "worker-died", "rc": rc, "why": why}}
             return results
         k = cur["current"]
         for i, r in zip(todo[:k], cur.get("done", [])):
             results[i] = r
         results[todo[k]] = {"replies": [], "calls": [],
-                            "fail": {"kind": "hang" if rc in (124, 137, 3) else "crash", "rc": rc, "log": log[-300:]}}
+                            "fail": {"kind": "hang" if why else "crash", "rc": rc, "why": why}}
         todo = todo[k + 1:]
     return results
 
@@ -663,6 +708,482 @@ def run_e2e(cases, batch=24):
             for i, r in zip(groups[gi], rs):
                 results[i] = r
     return results
+
+
+# ---------------------------------------------------------------------------------------
+# (X1) differential of the modelled helpers against the real functions, model run inside Coq
+
+PREAMBLE = """From Coq Require Import NArith List Bool String.
+From NG Require Import Svc.TextPost Svc.TextPostRun.
+Import ListNotations.
+Open Scope N_scope.
+"""
+
+EXN = {"IndexError": "IndexError", "TypeError": "TypeError", "AttributeError": "AttributeError", "ValueError": "ValueError",
+       "AssertionError": "AssertionError"}
+MAX_COQ_TEXT = 1500
+
+
+def coq_text(s):
+    return "[" + "; ".join(str(ord(c)) for c in s) + "]" if s else "([] : text)"
+
+
+def coq_texts(l):
+    return "[" + "; ".join(coq_text(x) for x in l) + "]" if l else "([] : list text)"
+
+
+def coq_answer(a):
+    """a = ('text', s) | ('none',) | ('texts', [..]) | ('triple', a, b, c) | ('raise', name) | ('outcome', None|[lines])"""
+    k = a[0]
+    if k == "text":
+        return f"(AText {coq_text(a[1])})"
+    if k == "none":
+        return "ANone"
+    if k == "texts":
+        return f"(ATexts {coq_texts(a[1])})"
+    if k == "triple":
+        return f"(ATriple {coq_text(a[1])} {coq_text(a[2])} {coq_text(a[3])})"
+    if k == "raise":
+        return f"(ARaise {EXN[a[1]]})" if a[1] in EXN else None
+    if k == "outcome":
+        return "(AOutcome GeneralResponse)" if a[1] is None else f"(AOutcome (StartFlow {coq_texts(a[1])}))"
+    raise ValueError(k)
+
+
+class ImplHelpers:
+    """The real code behind each modelled helper.  The per-call post-processing lives inside the
+    action methods, so those are called directly (real prompt rendering, scripted LLM)."""
+
+    def __init__(self, validate_wrapped):
+        import asyncio
+
+        from nemoguardrails import LLMRails, RailsConfig
+
+        write_cfgs()
+        self.loop = asyncio.new_event_loop()
+        self.apps = {}
+        for mode in ("v1_dialog", "v1_general", "v1_single_call", "v1_multi_step", "v2_value"):
+            llm = _mk_llm(mode, None, None)
+            self.apps[mode] = (LLMRails(RailsConfig.from_path(os.path.join(CFG_ROOT, mode)), llm=llm), llm)
+        self.validate_wrapped = validate_wrapped
+        self.base_events = [{"type": "UtteranceUserActionFinished", "final_transcript": "hi"},
+                            {"type": "UserMessage", "text": "hi"}]
+
+    def _act(self, mode, text, coro_fn):
+        app, llm = self.apps[mode]
+        llm.every = [text]
+        llm.subst = {}
+        try:
+            return ("ok", self.loop.run_until_complete(coro_fn(app.llm_generation_actions, app)))
+        except Exception as e:
+            return ("raise", type(e).__name__)
+
+    def call(self, h, s, s2=None, lens=None):
+        from nemoguardrails.actions.llm import utils as U
+        from nemoguardrails.actions.llm.generation import clean_utterance_content
+        from nemoguardrails.llm.output_parsers import verbose_v1_parser
+
+        def direct(f):
+            try:
+                r = f()
+            except Exception as e:
+                return ("raise", type(e).__name__)
+            if r is None:
+                return ("none",)
+            if isinstance(r, list):
+                return ("texts", r)
+            return ("text", r)
+
+        if h == "HFirstLine":
+            return direct(lambda: U.get_first_nonempty_line(s))
+        if h == "HTopK":
+            return direct(lambda: U.get_top_k_nonempty_lines(s, k=2))
+        if h == "HStripQuotes":
+            return direct(lambda: U.strip_quotes(s))
+        if h == "HMultiline":
+            return direct(lambda: U.get_multiline_response(s))
+        if h == "HClean":
+            return direct(lambda: clean_utterance_content(s))
+        if h == "HVerbose":
+            return direct(lambda: verbose_v1_parser(s))
+        if h == "HSplit1":
+            return direct(lambda: s.split(" ", maxsplit=1))
+        if h == "HIndent":
+            def f():
+                try:
+                    from nemoguardrails.colang.v1_0.runtime.utils import get_dynamic_flow_content
+                    return get_dynamic_flow_content("f", s)
+                except ImportError:
+                    from textwrap import indent
+                    return "define flow f:\n" + indent(s, "  ")
+            return direct(f)
+        ev = self.base_events
+        if h == "HUserIntent":
+            async def go(a, app):
+                r = await a.generate_user_intent(events=ev, context={}, config=app.config)
+                return r.events[0]["intent"]
+            k, v = self._act("v1_dialog", s, go)
+            return ("text", v) if k == "ok" else (k, v)
+        if h == "HNextStep":
+            async def go(a, app):
+                r = await a.generate_next_step(events=ev + [{"type": "UserIntent", "intent": "ask x"}])
+                return r.events[0]["intent"]
+            k, v = self._act("v1_dialog", s, go)
+            return ("text", v) if k == "ok" else (k, v)
+        if h == "HBotMessage":
+            async def go(a, app):
+                r = await a.generate_bot_message(events=ev + [{"type": "UserIntent", "intent": "ask x"}, {"type": "BotIntent", "intent": "inform y"}], context={})
+                return r.events[0]["text"]
+            k, v = self._act("v1_dialog", s, go)
+            return ("text", v) if k == "ok" else (k, v)
+        if h == "HGeneral":
+            async def go(a, app):
+                r = await a.generate_user_intent(events=ev, context={}, config=app.config)
+                return [e for e in r.events if e["type"] == "BotMessage"][0]["text"]
+            k, v = self._act("v1_general", s, go)
+            return ("text", v) if k == "ok" else (k, v)
+        if h == "HSingleCall":
+            async def go(a, app):
+                r = await a.generate_user_intent(events=ev, context={}, config=app.config)
+                e = r.events[0]
+                return (e["intent"], e["additional_info"]["bot_intent_event"]["intent"], e["additional_info"]["bot_message_event"]["text"])
+            k, v = self._act("v1_single_call", s, go)
+            return ("triple",) + tuple(v) if k == "ok" else (k, v)
+        if h == "HValueText":
+            import nemoguardrails.actions.v2_x.generation as G2
+            seen = []
+
+            def capture(x):
+                seen.append(x)
+                return 0
+
+            class St:
+                context = {}
+
+            async def go(a, app):
+                old = G2.literal_eval
+                G2.literal_eval = capture
+                try:
+                    await a.generate_value(state=St(), instructions="say", events=[], var_name="v")
+                finally:
+                    G2.literal_eval = old
+                return seen[0]
+            k, v = self._act("v2_value", s, go)
+            return ("text", v) if k == "ok" else (k, v)
+        if h == "HShrink":
+            import nemoguardrails.actions.llm.generation as G1
+            wrapped = self.validate_wrapped
+
+            def fake_parse(filename, content=None, **kw):
+                n = len(content.split("\n")) - (1 if wrapped else 0)
+                if n in lens:
+                    return {"flows": [{}]}
+                raise Exception("rejected by the oracle")
+
+            async def go(a, app):
+                old = G1.parse_colang_file
+                G1.parse_colang_file = fake_parse
+                try:
+                    r = await a.generate_next_step(events=ev + [{"type": "UserIntent", "intent": "ask x"}])
+                finally:
+                    G1.parse_colang_file = old
+                e = r.events[0]
+                return None if e["type"] == "BotIntent" else e["flow_body"].split("\n")
+            k, v = self._act("v1_multi_step", s, go)
+            return ("outcome", v) if k == "ok" else (k, v)
+        raise ValueError(h)
+
+
+HELPERS = ["HFirstLine", "HTopK", "HStripQuotes", "HMultiline", "HClean", "HVerbose", "HUserIntent", "HNextStep",
+           "HBotMessage", "HGeneral", "HSingleCall", "HIndent", "HSplit1", "HValueText"]
+
+
+def differential(out, rng, tier, validate_wrapped, extra_cases=()):
+    impl = ImplHelpers(validate_wrapped)
+    texts = [t for _, t in hostile_corpus() if len(t) <= MAX_COQ_TEXT]
+    texts += ["x" * 1200, "bot " + "a" * 1000, "\n" * 800 + "bot b", '"' * 700, "user " * 200, "a\\n" * 300]
+    texts += [t for _, t in mutations(rng, 150 if tier == "quick" else 1500)]
+    texts = [t for t in dict.fromkeys(texts) if "\ud800" not in t]
+    terms, kept, seen, hist = [], [], set(), {}
+    n_nontrivial = 0
+
+    def add(h, s, s2, a, lens=None):
+        nonlocal n_nontrivial
+        ca = coq_answer(a)
+        hist[a[0]] = hist.get(a[0], 0) + 1
+        if ca is None:
+            out.findings.append(C.Finding(f"helper/{h}/unexpected-exception:{a[1]}", f"{h} raised {a[1]} on {s[:60]!r}",
+                                          {"kind": "helper", "helper": h, "text": s, "impl": list(a)}))
+            return
+        hh = (f"(HShrink {C.coq_bool(validate_wrapped)} " + ("[" + "; ".join(f"{n}%nat" for n in lens) + "]" if lens else "([] : list nat)") + ")") if h == "HShrink" else h
+        term = f"({hh}, {coq_text(s)}, {coq_text(s2 or '')}, {ca})"
+        key = C.canon_hash(term)
+        if key in seen:
+            return
+        seen.add(key)
+        # non-trivial: the helper changed the text, answered None/raise, or the text has >1 line / a quote / a prefix
+        if a[0] != "text" or a[1] != s:
+            n_nontrivial += 1
+        terms.append(term)
+        kept.append((h, s, s2, a, lens))
+
+    for h, s, s2, lens in extra_cases:
+        add(h, s, s2, impl.call(h, s, s2, lens), lens)
+    for s in texts:
+        for h in HELPERS:
+            if h in ("HValueText",):
+                add(h, s, "$v =", impl.call(h, s, "$v ="))
+            else:
+                add(h, s, None, impl.call(h, s))
+    # the shrink loop with arbitrary oracles (a candidate is accepted iff its number of lines is listed)
+    for _ in range(200 if tier == "quick" else 2000):
+        n = rng.randint(1, 7)
+        lines = [rng.choice(["bot a", "", "  ", "bot b", "!!", "user x", "# c", "\t"]) for _ in range(n)]
+        lens = sorted(rng.sample(range(0, 9), rng.randint(0, 3)))
+        s = "\n".join(lines)
+        add("HShrink", s, None, impl.call("HShrink", s, None, lens), lens)
+    return terms, kept, n_nontrivial, hist
+
+
+def _diff_case_name(c):
+    h, s, s2, a, lens = c
+    return f"{h}{'/' + str(lens) if lens is not None else ''} on {s[:80]!r}: impl={list(a)!r:.200}"
+
+
+# ---------------------------------------------------------------------------------------
+# (X2) end-to-end case generation and the direct oracle
+
+MESSAGE_KINDS = {"general", "passthrough", "other", "bot_message", "single_call", "v2_value"}
+_LIT = "Result {{ 7*191 }} and $secret and {$x} and {{ secret }}."
+LITERAL_TEXTS = {"general": _LIT, "passthrough": _LIT, "other": _LIT, "bot_message": f'  "{_LIT}"',
+                 "single_call": f'  ask x\nbot inform y\n  "{_LIT}"', "v2_value": f"'{_LIT}'"}
+NPOS = {"v1_general": 3, "v1_passthrough": 3, "v1_dialog": 8, "v1_single_call": 5, "v1_multi_step": 8, "v2_llm": 5, "v2_value": 3,
+        "v2_saylike": 2, "v2_passthrough": 2}
+CORE = ["", "   \n\t\n  ", '"', "bot ", 'bot "hello"', "user ", "User: hi", "{{ 7*191 }} $secret {$x}", "...", "bot $secret", "\x00",
+        "define flow x\n  user a\n  bot b", "bot a\n!!!", "#", "do foo", "while True\n  bot a", "meta", "user a\nbot b", "b'x'", "1 + 2j",
+        'bot action: bot say "{$x}"', "bot intent: ", "flow", "a" * LONG, "bot a\n" * 500]
+
+
+def gen_cases(rng, tier):
+    corpus = hostile_corpus()
+    cases = []
+    muts = mutations(rng, 400 if tier == "quick" else 6000)
+    for mode in MODES:
+        for k in range(NPOS[mode]):
+            if tier == "thorough":
+                pool = [t for _, t in corpus] + [t for _, t in rng.sample(muts, 120)]
+            else:
+                pool = list(CORE) + [t for _, t in rng.sample(corpus, 10)] + [t for _, t in rng.sample(muts, 6)]
+            pool += list(dict.fromkeys(LITERAL_TEXTS.values()))
+            for t in dict.fromkeys(pool):
+                cases.append({"mode": mode, "turns": TURNS[mode], "subst": {str(k): t}})
+    # every call hostile
+    allt = [t for _, t in corpus if len(t) < 2000] + [t for _, t in muts]
+    for mode in MODES:
+        for _ in range(6 if tier == "quick" else 150):
+            cases.append({"mode": mode, "turns": TURNS[mode], "every": [rng.choice(allt) for _ in range(rng.randint(1, 5))]})
+    # two hostile positions
+    for mode in MODES:
+        for _ in range(4 if tier == "quick" else 100):
+            ks = rng.sample(range(NPOS[mode]), min(2, NPOS[mode]))
+            cases.append({"mode": mode, "turns": TURNS[mode], "subst": {str(k): rng.choice(allt) for k in ks}})
+    return cases
+
+
+_CTXVAR = None
+
+
+def judge(case, r, kind_at):
+    """Direct oracle (the property text) on one result.  Returns (signature, what) or None;
+    ('obs', name) for a recorded observation that is not a violation."""
+    import re
+
+    f = r.get("fail")
+    ks = sorted(case.get("subst", {}), key=int)
+    calls = {str(c["i"]): c for c in r.get("calls", [])}
+    first = ks[0] if ks else None
+    kind = (calls.get(first, {}).get("kind") if first is not None else None) or (kind_at.get(case["mode"], {}).get(first) if first else None) or ("every" if case.get("every") else "?")
+    if f:
+        if f["kind"] == "evaluated":
+            # documented feature: a bot INTENT of the form `$name` is replaced by the context variable
+            texts = list(case.get("subst", {}).values()) + list(case.get("every", []))
+            for t in texts:
+                for m in re.finditer(r"(?:^|\n)\s*(?:bot|Bot intent:)\s+\$(\w+)", t):
+                    if CTX.get(m.group(1)) == f["found"]:
+                        return ("obs", "bot-intent-$var-dereferences-context-variable")
+            return (f"{case['mode']}/{kind}/evaluated", f"template/variable syntax from the LLM was evaluated: {f['found']} in {f['reply'][:80]!r}")
+        if f["kind"] == "raised":
+            return (f"{case['mode']}/{kind}/raised:{f['exc']}@{f['fn']}", f"generate raised {f['exc']} in {f['fn']} ({f['where']}): {f['msg'][:120]}")
+        if f["kind"] == "malformed":
+            return (f"{case['mode']}/{kind}/malformed-reply", f["why"])
+        if f["kind"] == "hang":
+            return (f"{case['mode']}/{kind}/hang", f"generate did not return ({f.get('why')})")
+        return (f"{case['mode']}/{kind}/{f['kind']}", json.dumps(f)[:200])
+    # literal pass-through of template text at message positions
+    for k in ks:
+        c = calls.get(k)
+        if not c or not c["hostile"] or c["kind"] not in MESSAGE_KINDS:
+            continue
+        if case["subst"][k] != LITERAL_TEXTS.get(c["kind"]):
+            continue
+        rep = r["replies"][c["turn"]] if c["turn"] < len(r["replies"]) else None
+        content = rep.get("content") if isinstance(rep, dict) else None
+        if not isinstance(content, str) or _LIT not in content:
+            return (f"{case['mode']}/{c['kind']}/template-text-not-literal", f"reply {content!r:.120} does not contain the LLM message text literally")
+    return None
+
+
+def run(tier, seed, replay=None):
+    out = C.Outcome(PID, tier, seed)
+    rng = random.Random(seed * 1000003 + 17)
+    sys.path.insert(1, C.REPO)
+    b = C.build_and_audit(PID, GEN)
+    C.proof_coverage(out, b, "make theories/Props/C17.vo && coqc Props/C17.v (Print Assumptions)")
+    for br in b["broken"]:
+        out.add_broken(br, b["log"])
+    with C.BuildLock():
+        okm, logm = C.coq_make(["theories/Svc/TextPostRun.vo"])
+    if not okm:
+        out.add_broken("coq:theories/Svc/TextPostRun.v", logm)
+    try:
+        from translator import gen_c17
+
+        consts = gen_c17.c17_consts()
+    except Exception as e:
+        consts = None
+        if not any("translator" in x["obligation"] for x in out.broken):
+            out.add_broken("translator:C17Consts", str(e))
+    vw = bool(consts and consts["validate_wrapped"])
+
+    corpus_dir = os.path.join(C.VERIF, "corpus", PID)
+    corpus_e2e, corpus_diff = [], []
+    if os.path.isdir(corpus_dir):
+        for fn in sorted(os.listdir(corpus_dir)):
+            if fn.endswith(".json"):
+                d = json.load(open(os.path.join(corpus_dir, fn)))
+                for c in d.get("cases", [d]):
+                    if c.get("kind") == "helper":
+                        corpus_diff.append((c["helper"], c["text"], c.get("text2"), c.get("lens")))
+                    elif "mode" in c:
+                        corpus_e2e.append({k: c[k] for k in ("mode", "turns", "subst", "every") if k in c})
+    replay_case = None
+    if replay:
+        d = json.load(open(replay))
+        rc = d.get("replay", d)
+        if rc.get("kind") == "helper":
+            corpus_diff = [(rc["helper"], rc["text"], rc.get("text2"), rc.get("lens"))]
+            corpus_e2e = []
+        else:
+            replay_case = {k: rc[k] for k in ("mode", "turns", "subst", "every") if k in rc}
+            corpus_e2e, corpus_diff = [replay_case], []
+
+    import logging
+
+    logging.disable(logging.CRITICAL)
+
+    # ---- (X1) differential
+    t0 = time.time()
+    n_diff = n_nontrivial = 0
+    hist = {}
+    disagreements = []
+    if okm and not (replay and replay_case):
+        devnull = open(os.devnull, "w")
+        old = sys.stdout, sys.stderr
+        sys.stdout = sys.stderr = devnull        # the library prints
+        try:
+            terms, kept, n_nontrivial, hist = differential(out, rng, "replay" if replay else tier, vw, corpus_diff)
+            if replay:
+                terms, kept = terms[:len(corpus_diff)], kept[:len(corpus_diff)]
+        finally:
+            sys.stdout, sys.stderr = old
+        n_diff = len(terms)
+        bools, err = C.run_cases(PID + "_diff", PREAMBLE, terms, "check_case", shard=150)
+        if err:
+            out.add_broken("correspondence:C17-helpers(coqc)", err)
+        else:
+            disagreements = [c for ok, c in zip(bools, kept) if not ok]
+    if disagreements:
+        c = min(disagreements, key=lambda c: len(c[1]))
+        out.add_broken("correspondence:C17-helpers", f"{len(disagreements)} disagreements; smallest: {_diff_case_name(c)}")
+        # a disagreement in which the real helper RAISED is also a violation candidate of the property text
+        for c in disagreements:
+            if c[3][0] == "raise":
+                out.findings.append(C.Finding(f"helper/{c[0]}/raises:{c[3][1]}", f"{c[0]} raises {c[3][1]} on {c[1][:60]!r} (the model does not)",
+                                              {"kind": "helper", "helper": c[0], "text": c[1], "text2": c[2], "lens": c[4], "impl": list(c[3])}))
+    diff_s = round(time.time() - t0, 1)
+
+    # ---- (X2) end to end
+    t0 = time.time()
+    base = [{"mode": m, "turns": TURNS[m]} for m in MODES]
+    cases = base + corpus_e2e + ([] if replay else gen_cases(rng, tier))
+    results = run_e2e(cases)
+    kind_at = {}
+    for c, r in zip(base, results[:len(base)]):
+        kind_at[c["mode"]] = {str(x["i"]): x["kind"] for x in r.get("calls", [])}
+        if r.get("fail"):
+            out.add_broken(f"e2e-baseline:{c['mode']}", json.dumps(r["fail"])[:500])
+    by_sig, obs = {}, {}
+    kinds_hit = {}
+    n_conv = n_hostile_calls = 0
+    distinct = set()
+    for c, r in zip(cases, results):
+        n_conv += 1
+        for x in r.get("calls", []):
+            if x["hostile"]:
+                n_hostile_calls += 1
+                kinds_hit[(c["mode"], x["kind"])] = kinds_hit.get((c["mode"], x["kind"]), 0) + 1
+        if c.get("subst") or c.get("every"):
+            distinct.add(C.canon_hash([c["mode"], c.get("subst"), c.get("every")]))
+        j = judge(c, r, kind_at)
+        if j is None:
+            continue
+        if j[0] == "obs":
+            obs[j[1]] = obs.get(j[1], 0) + 1
+            continue
+        size = sum(len(t) for t in list(c.get("subst", {}).values()) + list(c.get("every", [])))
+        if j[0] not in by_sig or size < by_sig[j[0]][0]:
+            by_sig[j[0]] = (size, j[1], c, r, by_sig.get(j[0], (0, 0, 0, 0, 0))[4] + 1 if j[0] in by_sig else 1)
+        else:
+            by_sig[j[0]] = by_sig[j[0]][:4] + (by_sig[j[0]][4] + 1,)
+    for sig, (size, what, c, r, n) in sorted(by_sig.items()):
+        out.findings.append(C.Finding(sig, f"{what} [{n} failing conversations; smallest LLM output {list(c.get('subst', {}).items()) or c.get('every')!r:.120}]",
+                                      {"kind": "e2e", **c, "observed": r.get("fail") or {"replies": r.get("replies")}}))
+    e2e_s = round(time.time() - t0, 1)
+
+    out.coverage.update({
+        "evaluations": n_diff + n_conv,
+        "distinct_nontrivial": n_nontrivial + len(distinct),
+        "rule": "helper differential: distinct (helper, text) Coq case terms where the helper changed the text or answered None / an exception "
+                "(non-trivial); end-to-end: distinct (mode, hostile substitution) conversations (every one has >= 1 hostile LLM output and <= 3 turns)",
+        "samples": [{"helper": k[0], "text": k[1][:60], "impl": list(k[3])[:2]} for k in (kept[:3] if n_diff else [])]
+                   + [{"mode": c["mode"], "subst": {k: v[:60] for k, v in c.get("subst", {}).items()}, "replies": [x.get("content") if isinstance(x, dict) else x for x in r.get("replies", [])][:3]}
+                      for c, r in list(zip(cases, results))[len(base) + len(corpus_e2e):][:3]],
+        "input_distribution": {"helper_cases": n_diff, "helper_answer_kinds": hist, "conversations": n_conv, "hostile_llm_calls": n_hostile_calls,
+                               "hostile_calls_per_mode_and_kind": {f"{m}/{k}": v for (m, k), v in sorted(kinds_hit.items())},
+                               "corpus_cases": len(corpus_e2e) + len(corpus_diff), "hostile_corpus_size": len(hostile_corpus()),
+                               "baseline_call_kinds": kind_at},
+        "traces_validated_against_impl": n_diff,
+        "correspondence_disagreements": len(disagreements),
+        "oracle_violations": sum(v[4] for v in by_sig.values()),
+        "observations": obs,
+        "timing_s": {"differential": diff_s, "end_to_end": e2e_s},
+        "source_facts": consts,
+    })
+    out.assumptions += [
+        "the Colang 1.0/2.x parsers, Jinja, ast.literal_eval are oracles in the theorems (arbitrary functions of the text); their behaviour on LLM text is explored end-to-end, not proved",
+        "LLMCallException (the LLM call itself failing) is outside the property: it is re-raised by design",
+        "texts are lists of code points; the differential covers texts up to 1500 characters inside Coq, longer ones only end-to-end",
+        "end-to-end: scripted LLM answers well-formed at every call except the substituted positions; kinds of call are recognised from the prompt text",
+        "a reply with empty content (Colang 2 flows that say nothing) counts as well-formed",
+        "observation (not a violation of the statement, which speaks of message text): an LLM-produced bot INTENT `$name` is replaced by the context variable `name` (generate_bot_message, documented feature)",
+        f"a conversation is a hang when it burns > {CASE_CPU_LIMIT}s CPU or takes > {CASE_WALL_LIMIT}s wall",
+    ]
+    if tier == "thorough" and b["ok"] and not replay:
+        ok, log = C.coqchk(PID, b["files"])
+        out.coverage["coqchk"] = "ok" if ok else "FAILED"
+        if not ok:
+            out.add_broken("coqchk", log)
+    return C.finish(out)
 
 
 if __name__ == "__main__":
